@@ -574,3 +574,52 @@ Proof.
   destruct (mlookup mods sc (m :: n :: fst id, snd id)) as [|y [|z l]] eqn:E1; try (exfalso; apply (H1 y); reflexivity);
     destruct (mlookup mods sc (n :: fst id, snd id)) as [|y' [|z' l']] eqn:E2; try (exfalso; apply (H2 y'); reflexivity); reflexivity.
 Qed.
+
+(* ------------------------------------------------------------------ value positions inside modules: open frames *)
+
+Theorem parent_value_found c mods sc m n id r :
+  cfg_parent_walk c = true ->
+  (exists e, resolve_core_m mods sc ([m; n] ++ fst id, snd id) = RErr e) ->
+  resolve_core_m mods sc ([m] ++ fst id, snd id) = r -> (forall e, r <> RErr e) ->
+  resolve_enclosing c mods sc [m; n] id = r.
+Proof.
+  intros H [e He] Hr Hne. unfold resolve_enclosing, walk, inits_ne. rewrite H.
+  cbn [rev app tails_ne map first_resolved] in *. rewrite He, Hr.
+  destruct r; try reflexivity. exfalso. eapply Hne. reflexivity.
+Qed.
+
+(* pop_front: both qualified attempts fail, so the identifier as written decides -- in an open frame that is inference:
+   the parent's name silently becomes a column of the wildcard input *)
+Theorem pop_front_leaves_parents_name_to_inference c mods sc m n id :
+  cfg_parent_walk c = false ->
+  (exists e, resolve_core_m mods sc ([m; n] ++ fst id, snd id) = RErr e) ->
+  (exists e, resolve_core_m mods sc ([n] ++ fst id, snd id) = RErr e) ->
+  resolve_enclosing c mods sc [m; n] id = resolve_core_m mods sc id.
+Proof.
+  intros H [e1 H1] [e2 H2]. unfold resolve_enclosing, walk. rewrite H.
+  cbn [tails_ne first_resolved app] in *. rewrite H1, H2. reflexivity.
+Qed.
+
+(* ------------------------------------------------------------------ type names: this / that are shadowed (fold_type) *)
+
+Theorem type_ref_ignores_frames root f1 t1 f2 t2 par std id :
+  type_ref (mkScope root f1 t1 par std) id = type_ref (mkScope root f2 t2 par std) id.
+Proof. reflexivity. Qed.
+
+Theorem column_is_never_a_type sc n :
+  names_decl sc n = false -> type_ref sc ([], n) = TErr EUnknown.
+Proof.
+  unfold names_decl. intro H. repeat (apply orb_false_iff in H as [H ?]).
+  unfold type_ref. rewrite (closed_frame_rejects_unknown (shadowed sc) n); [reflexivity | reflexivity | reflexivity |].
+  unfold names_other, shadowed. cbn [s_root s_param s_std s_this s_that f_inputs existsb].
+  rewrite H, H2, H1, H0, H3. reflexivity.
+Qed.
+
+(* a type declared at the root, as a parameter or in std is a type, whatever the frame holds -- also a column of that name *)
+Theorem type_name_not_captured_by_column sc n k :
+  lookup (shadowed sc) ([], n) = [k] -> (k = CRoot NType \/ k = CStd NType \/ k = CParam NType) ->
+  type_ref sc ([], n) = TOk.
+Proof.
+  intros H Hk. unfold type_ref, resolve. rewrite H. cbn [resolve_from].
+  destruct Hk as [->|[->| ->]]; reflexivity.
+Qed.
